@@ -425,7 +425,7 @@ def available(cx):
                     key = (bid, idx)
                     if key not in edge_f:
                         edge_f[key] = frozenset(fid(a, pol, b) for (a, pol) in edge_atoms2(fn, b, idx)
-                                                if fn.nodes[a]["k"] in ("bin", "un", "ref"))
+                                                if fn.nodes[a]["k"] in ("bin", "un", "ref", "call"))
                     o2 = out | edge_f[key]
                 new = o2 if IN[s2] is None else (IN[s2] & o2)
                 if new != IN[s2]:
